@@ -1,7 +1,7 @@
 """Property id -> check function."""
 import json
 
-from . import props_pool, props_router, props_plugins, props_relay, props_pause
+from . import props_pool, props_router, props_plugins, props_relay, props_pause, props_shutdown
 
 CHECKS = {
     'C01': props_pool.check,
@@ -14,6 +14,7 @@ CHECKS = {
     'C19': props_plugins.check_c19,
     'C03': props_relay.check_c03,
     'C16': props_pause.check_c16,
+    'C17': props_shutdown.check_c17,
 }
 
 
